@@ -728,6 +728,24 @@ def moments(ctx, np, pre):
         if abs(corr) > 6 / math.sqrt(n):
             ctx.fail("Dither(%r) noise is correlated with the signal (r = %.4g over %d samples), seed %d" % (ceff, corr, n, seed),
                      dict(check="noise-signal-correlation", input=dict(cls="Dither", coeff=repr(ceff), n=n, seed=seed, signal="linspace(-5,5,n)"), observed=dict(corr=corr)), kind="impl")
+    # the same statistics for SHORT signals, pooled over many calls (each sample of each call is noise of standard deviation
+    # coeff: a one-sample recording is dithered too, and the noise of one call need not sum to zero)
+    for n in (1, 2, 3, 5):
+        for ceff in (1.0, 2.5):
+            obj = pre.Dither(ceff)
+            calls = ctx.scale(3000, 20000)
+            np.random.seed(ctx.seed + 1000 + n)
+            nz = np.stack([obj.apply(np.full(n, 3.0)) - 3.0 for _ in range(calls)])
+            m, sd = float(nz.mean()), float(nz.std())
+            per_call_sum = float(np.abs(nz.sum(axis=1)).mean())
+            tot = calls * n
+            ctx.count("moments:short-signals")
+            ctx.case(dict(moments="short", coeff=ceff, n=n, calls=calls, mean=m, std=sd))
+            if abs(m) > 6 * ceff / math.sqrt(tot) or abs(sd / ceff - 1) > 6 / math.sqrt(2 * tot) or not per_call_sum > 0.1 * ceff:
+                ctx.fail("Dither(%r) on %d-sample signals, %d calls: noise mean %.5g, std %.5g (expected 0 and %r), mean |sum of one call's noise| %.4g"
+                         % (ceff, n, calls, m, sd, ceff, per_call_sum),
+                         dict(check="moments-short", input=dict(cls="Dither", coeff=repr(ceff), n=n, calls=calls, seed=ctx.seed + 1000 + n, signal="full(n, 3.0)"),
+                              observed=dict(mean=m, std=sd, mean_abs_call_sum=per_call_sum)), kind="impl")
     # different seeds: different noise; same seed: same noise (sanity of the generator tie)
     d = pre.Dither(1.0)
     z = np.zeros(64)
